@@ -261,3 +261,12 @@ def load_replay(path):
 
 def now():
     return _time.monotonic()
+
+
+def run_check(obj, **kw):
+    """obj.check(**kw) with every warning recorded (the default filters show a repeated message only once)."""
+    import warnings
+
+    with warnings.catch_warnings():
+        warnings.simplefilter('always')
+        return [str(w.message) for w in obj.check(**kw)]
